@@ -202,3 +202,283 @@ Example C19_go_nullable_gap :
                                  go_pointer_keys)) nullable_keys
   = [("ExecutionResult", "container_id")]%string.
 Proof. vm_compute. reflexivity. Qed.
+
+(* ============================================================================================== *)
+(* TRANSPARENCY: the bridge inside the simulator loop.
+
+   Model/SimGen.v is the loop of run_simulator with the scheduler as a parameter ([gsim_run C step]); with a
+   shipped policy it IS [sim_run] (first theorem). Model/RestSim.v puts rest_scheduler into that loop:
+   [rest_gstep C poll pol] serialises the real executor / lifecycle state ([view], mirroring the to_dict
+   methods), decides with the bookkeeping of Model/Rest.v ([rest_step]) whether to send it, hands it to the
+   external server [pol] (ANY function: private state x request -> reply x private state), pushes the reply
+   through the wire codec and turns it into Suspend / Assignment objects exactly as _parse_suspensions /
+   _parse_assignments / Assignment.__init__ do. [direct_gstep C call_at pol] is the in-process counterpart: no
+   operator_lookup, no wire, no poll clock of its own; it consults the same [pol] on the same view in the ticks
+   [call_at] names and issues its decisions directly.
+   Statements only; every proof is [exact <lemma of Proofs/SimGenFacts.v or Proofs/RestSimFacts.v>]. *)
+From Eudoxia Require Import Model.Dag Model.Container Model.Pool Model.Executor Model.Sched Model.Simulator
+  Model.SimGen Model.RestSim Proofs.SimGenFacts Proofs.RestSimFacts.
+Close Scope Q_scope.
+Close Scope Z_scope.
+
+(* ---- the scheduler-generic loop is the loop of Model/Simulator.v *)
+Theorem C19_generic_loop_is_sim_run : forall C a arrivals tick s,
+  gsim_run C (lift_sched C a) tick (g_of_sim s) arrivals
+  = let '(sf, logs, e) := sim_run C a tick s arrivals in (g_of_sim sf, logs, e).
+Proof. exact gsim_run_is_sim_run. Qed.
+Print Assumptions C19_generic_loop_is_sim_run.
+
+(* ---- every call carries the true current state.
+   [observable_part] reads the simulator state through the accessors of the executor / lifecycle model (pool
+   figures, each container's id / pipeline / operators / cpu / ram / memory / priority, each operator's state,
+   assignability and parents_complete, each pipeline's is_pipeline_successful and failure counter, the arrival
+   ticks, the results of the last tick); [state_of_payload] reads a request body back. No serialiser occurs in
+   [observable_part]. *)
+Theorem C19_payload_is_true_state : forall C e results newp other arr t,
+  state_of_payload (view C e results newp other arr t) = observable_part C e results newp other arr t.
+Proof. exact payload_is_true_state. Qed.
+Print Assumptions C19_payload_is_true_state.
+
+(* the request of one invocation, in any state of the scheduler object *)
+Theorem C19_request_is_true_state : forall PS C poll (x : rxs PS) e results newp tick p,
+  rest_request C poll x e results newp tick = Some p ->
+  state_of_payload p
+  = observable_part C e results newp (map pid (rs_other (rx_rs x)))
+                    (rx_arr x ++ map (fun q => (q, tick)) newp) (rs_tick (rx_rs x) + 1)%Z.
+Proof. exact @request_is_true_state. Qed.
+Print Assumptions C19_request_is_true_state.
+
+(* in a run from the initial state the arrival ticks the bridge holds are the simulator's table and its tick
+   counter is the simulator's tick number ... *)
+Theorem C19_bridge_holds_simulator_clock : forall PS C poll (pol : policy PS) npools cpu ram ps0 arrivals k sk,
+  nth_error (gsim_states C (rest_gstep C poll pol) 0%Z (ginit C npools cpu ram (rx_init ps0)) arrivals) k
+    = Some sk ->
+  rx_arr (gm_sched sk) = gm_arrival sk /\ rs_tick (rx_rs (gm_sched sk)) = Z.of_nat k.
+Proof. exact @bridge_holds_simulator_clock. Qed.
+Print Assumptions C19_bridge_holds_simulator_clock.
+
+(* ... so the request of tick k shows the simulator state of tick k: executor state and results as they are
+   when the scheduler runs, the simulator's own arrival table (with this tick's arrivals), "tick" = k + 1 *)
+Theorem C19_run_payload_is_true_state : forall PS C poll (pol : policy PS) npools cpu ram ps0 arrivals k sk newp p,
+  nth_error (gsim_states C (rest_gstep C poll pol) 0%Z (ginit C npools cpu ram (rx_init ps0)) arrivals) k
+    = Some sk ->
+  nth_error arrivals k = Some newp ->
+  rest_request C poll (gm_sched sk) (gm_exec sk) (gm_results sk) newp (Z.of_nat k) = Some p ->
+  state_of_payload p
+  = observable_part C (gm_exec sk) (gm_results sk) newp (map pid (rs_other (rx_rs (gm_sched sk))))
+                    (gm_arrival sk ++ map (fun q => (q, Z.of_nat k)) newp) (Z.of_nat k + 1)%Z.
+Proof. exact @run_payload_is_true_state. Qed.
+Print Assumptions C19_run_payload_is_true_state.
+
+(* nothing about true resource needs, at the level of the simulator: the request is the same whatever the
+   per-tick memory scripts (durations and memory demands) of the operators are *)
+Theorem C19_view_hides_script : forall C f e results newp other arr t,
+  view (with_script C f) e results newp other arr t = view C e results newp other arr t.
+Proof. exact view_hides_script. Qed.
+Print Assumptions C19_view_hides_script.
+
+(* ---- the decisions in the reply are executed exactly as given.
+   One invocation that returns normally: without a request no command is issued and the world is untouched;
+   with a request the suspensions and assignments handed to the executor are, item by item and in order, the
+   reply of the server to [view_of ...] (fields copied, [same_susp] / [same_asg]), every operator id named
+   was a key of operator_lookup (new pipelines registered), and the world is the one in which exactly those
+   Assignment objects were created. *)
+Theorem C19_decisions_executed_as_given :
+  forall PS C poll (pol : policy PS) x e results newp tick x' w' susps asgs,
+  rest_gstep C poll pol x e results newp tick = Ok (x', w', susps, asgs) ->
+  (rest_calls_at C poll x results newp = false -> susps = [] /\ asgs = [] /\ w' = e_world e) /\
+  (rest_calls_at C poll x results newp = true ->
+     let r := fst (pol (rx_pol x) (view_of C e results newp tick x)) in
+     let lookup := register (rs_lookup (rx_rs x)) (map (pipe_entry (cf_static C)) newp) in
+     Forall2 (same_susp e) (rp_susp r) susps /\
+     Forall2 same_asg (rp_asg r) asgs /\
+     Forall (fun a => forall o, In o (as_ops a) -> In o lookup) (rp_asg r) /\
+     mk_assignments C (e_world e) asgs = Ok w').
+Proof. exact @decisions_executed_as_given. Qed.
+Print Assumptions C19_decisions_executed_as_given.
+
+(* in a run from the initial state every key of operator_lookup is the wire form of an operator number, so
+   the operators of each command ARE the ids the reply named (resolved through the lookup, nothing else) *)
+Theorem C19_run_decisions_name_operators :
+  forall PS C poll (pol : policy PS) npools cpu ram ps0 arrivals k sk newp tick x' w' susps asgs,
+  nth_error (gsim_states C (rest_gstep C poll pol) 0%Z (ginit C npools cpu ram (rx_init ps0)) arrivals) k
+    = Some sk ->
+  rest_gstep C poll pol (gm_sched sk) (gm_exec sk) (gm_results sk) newp tick = Ok (x', w', susps, asgs) ->
+  rest_calls_at C poll (gm_sched sk) (gm_results sk) newp = true ->
+  Forall2 (fun a x => map Z.of_nat (a_ops x) = as_ops a)
+          (rp_asg (fst (pol (rx_pol (gm_sched sk)) (view_of C (gm_exec sk) (gm_results sk) newp tick (gm_sched sk)))))
+          asgs.
+Proof. exact @run_decisions_name_operators. Qed.
+Print Assumptions C19_run_decisions_name_operators.
+
+(* the parser used inside the loop is Rest.parse_assignment (tests in the same order, same fields), followed
+   by the reading of "cpu" as a CPU count *)
+Theorem C19_parse_asg_is_rest_parser : forall S lk a,
+  parse_asg (fun o => memZ o lk) a
+  = match parse_assignment (tab_of S lk) a with
+    | inl e => Err (err_of_perr e)
+    | inr ob => asg_of_obj ob
+    end.
+Proof. exact parse_asg_rest. Qed.
+Print Assumptions C19_parse_asg_is_rest_parser.
+
+(* the bookkeeping inside the loop is [rest_step] on inputs read off the real state (so the protocol theorems
+   above hold for the requests of a simulated run), and the arrival table grows by this tick's arrivals *)
+Theorem C19_bookkeeping_is_rest_step : forall PS C poll (pol : policy PS) x e results newp t x' w su a,
+  rest_gstep C poll pol x e results newp t = Ok (x', w, su, a) ->
+  rx_rs x' = fst (rest_step (cf_rnd C) (cf_tps C) poll (rx_rs x) (tick_in_of C e results newp (rx_rs x))) /\
+  rx_arr x' = rx_arr x ++ map (fun p => (p, t)) newp.
+Proof. exact @rest_gstep_state. Qed.
+Print Assumptions C19_bookkeeping_is_rest_step.
+
+(* rest.py deletes completed pipelines AFTER it created the Assignment objects; [rest_step] deletes by the
+   flags that were sent. Same thing: creating Assignment objects never changes is_pipeline_successful() *)
+Theorem C19_deletion_sees_sent_flags : forall PS C poll (pol : policy PS) x e results newp t x' w' su a ps,
+  rest_gstep C poll pol x e results newp t = Ok (x', w', su, a) ->
+  succ_ids (cf_static C) w' ps = succ_ids (cf_static C) (e_world e) ps.
+Proof. exact @deletion_sees_sent_flags. Qed.
+Print Assumptions C19_deletion_sees_sent_flags.
+
+(* ---- a run driven over HTTP equals the run in which the same policy is called in-process.
+   For every server [pol] that names only operators it was shown in the request it answers ([admissible]), every
+   workload, pool configuration, poll interval, tick rate and rounding, and every call discipline [call_at] that
+   names the ticks in which the bridge sends a request: same final executor state, same results, same
+   outstanding / arrival / latency tables and counters, same per-tick log (arrivals, suspensions, assignments,
+   results, finished pipelines), same error if the run stops - everything but the schedulers' private state.
+   [order_pipe]: operator ids are unique across pipelines (UUIDs in the code; holds for [mk_static]). *)
+Theorem C19_transparent : forall PS C poll (pol : policy PS) call_at,
+  order_pipe (cf_static C) -> admissible pol ->
+  forall npools cpu ram ps0 arrivals,
+  discipline_agrees C poll pol call_at 0%Z (ginit C npools cpu ram (rx_init ps0)) arrivals ->
+  gforget_run (gsim_run C (rest_gstep C poll pol) 0%Z (ginit C npools cpu ram (rx_init ps0)) arrivals)
+  = gforget_run (gsim_run C (direct_gstep C call_at pol) 0%Z (ginit C npools cpu ram (dx_init ps0)) arrivals).
+Proof. exact @rest_transparent. Qed.
+Print Assumptions C19_transparent.
+
+(* hence the same statistics *)
+Theorem C19_same_statistics : forall PS C poll (pol : policy PS) call_at,
+  order_pipe (cf_static C) -> admissible pol ->
+  forall npools cpu ram ps0 arrivals duration,
+  discipline_agrees C poll pol call_at 0%Z (ginit C npools cpu ram (rx_init ps0)) arrivals ->
+  gfinal_stats C duration
+    (fst (fst (gsim_run C (rest_gstep C poll pol) 0%Z (ginit C npools cpu ram (rx_init ps0)) arrivals)))
+  = gfinal_stats C duration
+    (fst (fst (gsim_run C (direct_gstep C call_at pol) 0%Z (ginit C npools cpu ram (dx_init ps0)) arrivals))).
+Proof. exact @rest_same_statistics. Qed.
+Print Assumptions C19_same_statistics.
+
+(* [gfinal_stats] is [final_stats] of Model/Simulator.v *)
+Theorem C19_statistics_are_final_stats : forall C duration s,
+  gfinal_stats C duration (g_of_sim s) = final_stats C duration s.
+Proof. exact gfinal_stats_sim. Qed.
+Print Assumptions C19_statistics_are_final_stats.
+
+(* such a call discipline exists for every run: the one read off the REST run itself ... *)
+Theorem C19_discipline_exists : forall PS C poll (pol : policy PS) s arrivals,
+  discipline_agrees C poll pol (schedule_of 0%Z (rest_call_trace C poll pol 0%Z s arrivals)) 0%Z s arrivals.
+Proof. exact @trace_discipline_agrees. Qed.
+Print Assumptions C19_discipline_exists.
+
+(* ... with which no hypothesis on the call ticks is left *)
+Theorem C19_transparent_trace : forall PS C poll (pol : policy PS) npools cpu ram ps0 arrivals,
+  order_pipe (cf_static C) -> admissible pol ->
+  let s0 := ginit C npools cpu ram (rx_init ps0) in
+  gforget_run (gsim_run C (rest_gstep C poll pol) 0%Z s0 arrivals)
+  = gforget_run (gsim_run C (direct_gstep C (schedule_of 0%Z (rest_call_trace C poll pol 0%Z s0 arrivals)) pol)
+                          0%Z (ginit C npools cpu ram (dx_init ps0)) arrivals).
+Proof. exact @rest_transparent_trace. Qed.
+Print Assumptions C19_transparent_trace.
+
+(* WITHOUT admissibility the equality is false in the model as in the code: a reply that names an operator the
+   bridge has not registered (or has already dropped) is a KeyError in _parse_assignments, while an in-process
+   scheduler holds the operator objects and can assign them. Witness: the reply to the first request names an
+   operator of a pipeline that arrives three ticks later. *)
+Theorem C19_transparent_needs_admissible_refuted :
+  exists (C : cfg) (poll : Q) (pol : policy unit) (arrivals : list (list nat)),
+    let s0 := ginit C 1 4%Z 8%Q (rx_init tt) in
+    let call_at := schedule_of 0%Z (rest_call_trace C poll pol 0%Z s0 arrivals) in
+    let rest := gsim_run C (rest_gstep C poll pol) 0%Z s0 arrivals in
+    let direct := gsim_run C (direct_gstep C call_at pol) 0%Z (ginit C 1 4%Z 8%Q (dx_init tt)) arrivals in
+    order_pipe (cf_static C) /\
+    discipline_agrees C poll pol call_at 0%Z s0 arrivals /\
+    snd rest = Some EOther /\ snd direct = None /\
+    gforget_run rest <> gforget_run direct.
+Proof. exact transparent_needs_admissible_refuted. Qed.
+Print Assumptions C19_transparent_needs_admissible_refuted.
+
+(* the strongest statement for EVERY server: that KeyError (error class EOther) is the only way the two runs
+   can part - either the HTTP-driven run stops with EOther, or it is the in-process run *)
+Theorem C19_transparent_or_keyerror : forall PS C poll (pol : policy PS) call_at,
+  order_pipe (cf_static C) ->
+  forall npools cpu ram ps0 arrivals,
+  discipline_agrees C poll pol call_at 0%Z (ginit C npools cpu ram (rx_init ps0)) arrivals ->
+  snd (gsim_run C (rest_gstep C poll pol) 0%Z (ginit C npools cpu ram (rx_init ps0)) arrivals) = Some EOther \/
+  gforget_run (gsim_run C (rest_gstep C poll pol) 0%Z (ginit C npools cpu ram (rx_init ps0)) arrivals)
+  = gforget_run (gsim_run C (direct_gstep C call_at pol) 0%Z (ginit C npools cpu ram (dx_init ps0)) arrivals).
+Proof. exact @rest_transparent_or_keyerror. Qed.
+Print Assumptions C19_transparent_or_keyerror.
+
+(* the hypotheses are satisfiable: the small greedy policy of Model/RestSim.v is admissible, the static
+   description of the example below has unique operator ids *)
+Theorem C19_greedy_admissible : admissible greedy_policy.
+Proof. exact greedy_admissible. Qed.
+Print Assumptions C19_greedy_admissible.
+
+Theorem C19_example_order_pipe : order_pipe (cf_static RestSimExamples.exC).
+Proof. exact RestSimExamples.ex_order_pipe. Qed.
+Print Assumptions C19_example_order_pipe.
+
+(* ---------------------------------------------------------------------------------------------- *)
+(* Examples (non-vacuity) for the transparency theorems.
+   RestSimExamples: pipeline 0 (QUERY, operators 0 -> 1) arrives in tick 0, pipeline 1 (BATCH, operator 2) in
+   tick 3; every operator runs two ticks; one pool of 4 CPUs / 8 GB; 10 ticks/s, binary64 arithmetic, poll
+   interval 0.3 s; the server is [greedy_policy] (the first ready operator gets the whole free pool). *)
+Import RestSimExamples.
+
+Definition ex_trace : list bool := rest_call_trace exC ex_poll greedy_policy 0%Z ex_s0 ex_arrivals.
+
+(* the HTTP-driven run: no error; requests in ticks 0 (arrival), 2 (result), 3 (arrival), 4 (result),
+   6 (result), 9 (poll clock); the poll clock suppresses the call in ticks 1, 5, 7, 8, 10, 11; operators 0, 1, 2
+   are assigned in ticks 0, 2, 4; pipeline 0 finishes in tick 3 and pipeline 1 in tick 5 *)
+Example C19_rest_run_example :
+  let '(sf, logs, er) := gsim_run exC (rest_gstep exC ex_poll greedy_policy) 0%Z ex_s0 ex_arrivals in
+  er = None /\
+  ex_trace = [true; false; true; true; true; false; true; false; false; true; false; false] /\
+  map (fun l => map a_ops (tl_asgs l)) logs = [[[0]]; []; [[1]]; []; [[2]]; []; []; []; []; []; []; []] /\
+  map tl_finished logs = [[]; []; []; [0]; []; [1]; []; []; []; []; []; []] /\
+  map (st_of (e_world (gm_exec sf))) [0; 1; 2] = [Completed; Completed; Completed].
+Proof. vm_compute. repeat split; reflexivity. Qed.
+
+(* the requests of that run: "tick", ids under new_pipelines, (id, is_complete) under other_pipelines, and
+   (avail_cpu, number of active containers) of the pool. Pipeline 0 is shown complete once (request of tick 4,
+   "tick": 5) and never again; the free CPUs are the pool's *)
+Example C19_requests_example :
+  map (fun o => match o with
+                | Some p => Some (pf_tick p, map pv_id (pf_new p), map (fun v => (pv_id v, pv_complete v)) (pf_other p),
+                                  map (fun q => (pov_avail_cpu q, Z.of_nat (List.length (pov_active q)))) (pf_pools p))
+                | None => None end)
+      (rest_requests exC ex_poll greedy_policy 0%Z ex_s0 ex_arrivals)
+  = [Some (1, [0], [], [(4, 0)]); None; Some (3, [], [(0, false)], [(4, 0)]);
+     Some (4, [1], [(0, false)], [(0, 1)]); Some (5, [], [(0, true); (1, false)], [(4, 0)]); None;
+     Some (7, [], [(1, true)], [(4, 0)]); None; None; Some (10, [], [], [(4, 0)]); None; None]%Z.
+Proof. vm_compute. reflexivity. Qed.
+
+(* the in-process run with the call discipline of the REST run is the same run (checked by computation here;
+   C19_transparent_trace with C19_greedy_admissible and C19_example_order_pipe gives it by proof) *)
+Example C19_transparent_example :
+  gforget_run (gsim_run exC (rest_gstep exC ex_poll greedy_policy) 0%Z ex_s0 ex_arrivals)
+  = gforget_run (gsim_run exC (direct_gstep exC (schedule_of 0%Z ex_trace) greedy_policy) 0%Z ex_d0 ex_arrivals).
+Proof. vm_compute. reflexivity. Qed.
+
+Example C19_transparent_example_by_theorem :
+  gforget_run (gsim_run exC (rest_gstep exC ex_poll greedy_policy) 0%Z ex_s0 ex_arrivals)
+  = gforget_run (gsim_run exC (direct_gstep exC (schedule_of 0%Z ex_trace) greedy_policy) 0%Z ex_d0 ex_arrivals).
+Proof. exact (C19_transparent_trace unit exC ex_poll greedy_policy 1 4%Z 8%Q tt ex_arrivals
+                                    C19_example_order_pipe C19_greedy_admissible). Qed.
+
+(* the inadmissible server of the refutation: the bridge stops in tick 0, the in-process run goes on *)
+Example C19_rogue_example :
+  snd (gsim_run exC (rest_gstep exC ex_poll rogue_policy) 0%Z ex_s0 ex_arrivals) = Some EOther /\
+  (let '(sf, logs, er) := gsim_run exC (direct_gstep exC (fun t => (t =? 0)%Z) rogue_policy) 0%Z ex_d0 ex_arrivals in
+   er = None /\ map (fun l => map a_ops (tl_asgs l)) logs = [[[2]]; []; []; []; []; []; []; []; []; []; []; []]).
+Proof. vm_compute. repeat split; reflexivity. Qed.
